@@ -1,0 +1,34 @@
+//go:build verif
+
+// Machine-checked contracts for this package (comment-only; compiled only under the
+// build tag `verif`, where it still contains no code). Checked by /verif/govc.
+package keeper
+
+// C06: TotalValue = cash + Σ (Borrowed + InterestStacked - InterestPaid)
+//@ aggregate debtTotal table stablestake:types.GetDebtKey row types.Debt value row.Borrowed + row.InterestStacked - row.InterestPaid
+//@ define vaultGap(ctx) := k.GetParams(ctx).TotalValue - bal(ctx, modAddr("stablestake"), k.GetDepositDenom(ctx)) - debtTotal(ctx)
+
+// Every stored debt sits under its owner's key, and a debt without principal owes no interest
+// (so deleting it on full repayment drops nothing).
+//@ rowinv debtKey table stablestake:types.GetDebtKey row types.Debt : unbech32(row.Address) == key0
+//@ rowinv debtNonNegative table stablestake:types.GetDebtKey row types.Debt : row.Borrowed >= 0
+//@ rowinv debtNoDanglingInterest table stablestake:types.GetDebtKey row types.Debt : row.Borrowed == 0 ==> row.InterestStacked == row.InterestPaid
+
+//@ func (Keeper).GetInterest
+//@ ensures C06/no-principal-no-interest: borrowed == 0 ==> result == 0
+//@ modifies nothing
+
+//@ func (Keeper).UpdateInterestStacked
+//@ requires debt == k.getDebt(ctx, unbech32(debt.Address))
+//@ ensures C06/vault-eq: vaultGap(ctx) == old(vaultGap(ctx))
+
+// The borrower is never the vault's own module account (callers pass position addresses).
+//@ func (Keeper).Repay
+//@ requires addr != modAddr("stablestake")
+//@ requires amount.Amount >= 0
+//@ ensures C06/vault-eq: err == nil ==> vaultGap(ctx) == old(vaultGap(ctx))
+
+//@ func (Keeper).Borrow
+//@ requires addr != modAddr("stablestake")
+//@ requires amount.Amount >= 0
+//@ ensures C06/vault-eq: err == nil ==> vaultGap(ctx) == old(vaultGap(ctx))
